@@ -315,5 +315,132 @@ def task_core_core_der(ctx):
     ctx.assume_note("chain rule: r_ij = |X_j - X_i|/a0 and x_ij = (X_j - X_i)/|X_j - X_i| give d r_ij/d X_i = -x_ij/a0 (task chain_lemma)")
 
 
-TASKS_QUICK = ["chain_lemma", "core_core_der", "prologue", "der_XX_x", "der_XX_y", "der_XX_z", "der_XH_HH"]
+def _contraction(ctx, padded):
+    """O4 (Dewar-Yamaguchi contraction): with the density fixed, the gradient assembled from the AO-basis derivative blocks
+    equals the first-order variation of  elec_energy(P, fock(P, M, w), Hcore) + pair terms  computed with the REAL fock and
+    elec_energy (the energy is linear in (M, w) at fixed P, so the variation is the same functional evaluated on the
+    derivative blocks with the geometry-independent one-centre integrals set to zero)."""
+    from contracts.C06_nddo_model import fock_inputs
+    from contracts.md_common import Obj
+
+    AG = "seqm.seqm_functions.anal_grad"
+    fc = ctx.under_contract(AG + ":contract_ao_derivatives_with_density")
+    ff = ctx.under_contract("seqm.seqm_functions.fock:fock")
+    fe = ctx.under_contract("seqm.seqm_functions.energy:elec_energy")
+    d, P, Mfull, M, w, onec = fock_inputs(padded)
+    npairs = len(d.pairs)
+    ov = st.symbolic((npairs, 3, 4, 4), "ov")      # 2 * d M_AB / d X_i  (= (beta_i+beta_j) dS/dX_i, see overlap_der_finiteDiff)
+    wx = st.symbolic((npairs, 3, 10, 10), "wx")    # d w / d X_i
+    pg = st.symbolic((npairs, 3), "pg")            # d EnucAB / d X_i
+    e1 = st.zeros(npairs, 3, 4, 4)
+    e2 = st.zeros(npairs, 3, 4, 4)
+    for k in range(npairs):
+        for c in range(3):
+            for i in range(4):
+                for j in range(i, 4):
+                    e1.a[k, c, i, j] = real("e1_%d_%d_%d_%d" % (k, c, i, j))
+                    e2.a[k, c, i, j] = real("e2_%d_%d_%d_%d" % (k, c, i, j))
+    zero_onec = st.zeros(len(d.flat))
+    mol = Obj(species=d.species)
+
+    def thunk():
+        grad = fc(P.clone(), mol, d.molsize, ov.clone(), e1.clone(), e2.clone(), wx.clone(), pg.clone(), d.mask, d.maskd, d.idxi, d.idxj)
+        specs = {}
+        for a, (m, ia, z) in enumerate(d.flat):
+            for c in range(3):
+                sgn = [(1 if int(d.idxi.a[k]) == a else (-1 if int(d.idxj.a[k]) == a else 0)) for k in range(npairs)]
+                if not any(sgn):
+                    specs[(a, c)] = S(0.0)
+                    continue
+                M1 = st.zeros(d.nmol * d.molsize * d.molsize, 4, 4)
+                w1 = st.zeros(npairs, 10, 10)
+                nuc = 0
+                for k in range(npairs):
+                    if not sgn[k]:
+                        continue
+                    M1.a[int(d.mask.a[k])] = M1.a[int(d.mask.a[k])] + sgn[k] * (ov.a[k, c] * Fraction(1, 2))
+                    bi, bj = int(d.maskd.a[int(d.idxi.a[k])]), int(d.maskd.a[int(d.idxj.a[k])])
+                    M1.a[bi] = M1.a[bi] + sgn[k] * e1.a[k, c]
+                    M1.a[bj] = M1.a[bj] + sgn[k] * e2.a[k, c]
+                    w1.a[k] = sgn[k] * wx.a[k, c]
+                    nuc = nuc + sgn[k] * pg.a[k, c]
+                F1 = ff(d.nmol, d.molsize, P, M1, d.maskd, d.mask, d.idxi, d.idxj, w1, None, zero_onec, zero_onec, zero_onec, zero_onec, zero_onec, "AM1",
+                        None, None, None, d.Z, None, None)
+                H1 = M1.reshape(d.nmol, d.molsize, d.molsize, 4, 4).transpose(2, 3).reshape(d.nmol, 4 * d.molsize, 4 * d.molsize)
+                Ee = fe(P, F1, H1)
+                specs[(a, c)] = Ee.a[m] + nuc
+        return grad, specs
+
+    ex = ctx.explore(thunk, name="contract_ao_derivatives")
+    if len(ex.paths) != 1 or ex.paths[0].raised is not None:
+        ctx.error("paths", "%r %s" % ([p.raised for p in ex.paths], ex.paths[0].notes.get("traceback", "")[-800:] if ex.paths else ""))
+        return
+    grad, specs = ex.paths[0].value
+    tag = "padded" if padded else "dense"
+    for a, (m, ia, z) in enumerate(d.flat):
+        for c in range(3):
+            ctx.prove_eq("%s.grad[mol%d,atom%d,%d]=variation-of-the-energy-functional" % (tag, m, ia, c), grad.a[m, ia, c], specs[(a, c)], shape="batch " + ("[OHH, HH+pad]" if padded else "[OH, HH]"))
+    if padded:
+        for c in range(3):
+            ctx.prove_eq("padded.grad[padding-slot,%d]=0" % c, grad.a[1, 2, c], 0)
+    ctx.canary_eq(tag + ".sign-of-second-atom", grad.a[0, 1, 0], specs[(0, 0)])
+    ctx.assume_note("interface precondition: overlap_KAB_x = (beta_i+beta_j) dS/dX_i = 2 dM_AB/dX_i (task overlap_scaling); e1b_x/e2a_x carry the upper triangle; all *_x blocks are derivatives w.r.t. the pair's first atom and the pair terms depend on X_j - X_i only (translation: dE/dX_j = -dE/dX_i)")
+
+
+def task_contraction(ctx):
+    _contraction(ctx, False)
+
+
+def task_contraction_padded(ctx):
+    _contraction(ctx, True)
+
+
+def task_overlap_scaling(ctx):
+    """overlap_der_finiteDiff scales the finite-difference overlap derivative by (beta_i + beta_j), i.e. by twice the factor
+    hcore uses for the off-diagonal core-Hamiltonian block."""
+    AG = "seqm.seqm_functions.anal_grad"
+    fo = ctx.under_contract(AG + ":overlap_der_finiteDiff", stubs=["diatom_overlap_matrix_PM6_SP"])
+    calls = []
+
+    def ov_stub(ni, nj, xij, rij, za, zb, qn):
+        n = len(ni)
+        t = st.symbolic((n, 4, 4), "S%d" % len([c for c in calls if c.shape[0] == 2]))
+        calls.append(t)
+        return t
+
+    beta = st.symbolic((2, 2), "beta")
+
+    def thunk():
+        calls.clear()
+        out = st.zeros(1, 3, 4, 4)
+        fo(out, st.tensor([0]), st.tensor([1]), st.symbolic((1,), "rij"), st.symbolic((1, 3), "X"), beta, st.tensor([8]), st.tensor([6]), st.symbolic((2, 2), "zeta"), st.tensor([0, 1, 1, 2, 2, 2, 2, 2, 2, 2]))
+        return out, list(calls)
+
+    ex = ctx.explore(thunk, stubs={AG + ":diatom_overlap_matrix_PM6_SP": ov_stub}, constants=dict(CONSTS, delta=real("delta")), name="overlap_der_finiteDiff", max_paths=64)
+    ok = [p for p in ex.paths if p.raised is None]
+    if not ok:
+        ctx.error("paths", "%r %s" % ([p.raised for p in ex.paths], ex.paths[0].notes.get("traceback", "")[-700:] if ex.paths else ""))
+        return
+    import seqm.seqm_functions.anal_grad as A
+
+    dl = real("delta")
+    ctx.prove("finite-difference-step-is-1e-5", S(E.frac_of_float(A.delta)) == S(Fraction(1, 10**5)))
+    for p in ok:
+        out, cl = p.value
+        cl = [t for t in cl if t.shape[0] == 2]
+        if len(cl) != 3:
+            # beyond the overlap cutoff no overlap is evaluated and the derivative block is zero
+            ctx.prove("beyond-overlap-cutoff=>zero@p%d" % p.path_id, E.and_(*[E.eq(v.n, E.const(Fraction(0), E.R)) for v in out.a.reshape(-1)]), pc=p.pc)
+            continue
+        for c in range(3):
+            for i in range(4):
+                for j in range(4):
+                    fd = (cl[c].a[0, i, j] - cl[c].a[1, i, j]) / (2 * dl)
+                    bi = beta.a[0, 0 if i == 0 else 1]
+                    bj = beta.a[1, 0 if j == 0 else 1]
+                    ctx.prove_eq("ov_x[%d,%d,%d]=(beta_i+beta_j)*central-difference@p%d" % (c, i, j, p.path_id), out.a[0, c, i, j], (bi + bj) * fd, pc=p.pc)
+    ctx.undecided_clause("accuracy of the finite-difference overlap derivative itself (step 1e-5 A)")
+
+
+TASKS_QUICK = ["chain_lemma", "core_core_der", "prologue", "contraction", "contraction_padded", "overlap_scaling", "der_XX_x", "der_XX_y", "der_XX_z", "der_XH_HH"]
 TASKS_THOROUGH = TASKS_QUICK
